@@ -6,7 +6,8 @@ for d in sorted(glob.glob(os.path.join(root, "C*"))):
     mid = os.path.basename(d)
     meta = json.load(open(os.path.join(d, "meta.json")))
     summ = open(os.path.join(d, "summary.txt")).read().strip() if os.path.exists(os.path.join(d, "summary.txt")) else ""
-    first = "missed at first" if os.path.exists(os.path.join(d, "first_attempt.txt")) else "caught at first run"
+    b = meta.get("blind_run")
+    first = ("blind: " + ("caught" if b["detected"] else "missed")) if b else "missed at first" if os.path.exists(os.path.join(d, "first_attempt.txt")) else "caught at first run"
     mons = []
     for r in meta["checks_run"]["runs"]:
         if r["detected"]:
